@@ -55,3 +55,12 @@ func TestC06(t *testing.T) {
 	defer r.Write()
 	vtx.Explore(t, profile(), r)
 }
+
+// TestC06BFS: merged breadth-first search to depth 7 (thorough tier only).
+func TestC06BFS(t *testing.T) {
+	r := rep.New("C06")
+	defer r.Write()
+	p := profile()
+	p.Name = "c06-bfs"
+	vtx.ExploreBFS(t, p, r, 7)
+}
